@@ -1,7 +1,8 @@
 import GoSQLXModel.Model.PrintExpr
 import GoSQLXModel.Driver.LspOp
 /-! Driver op `print`: payload = a model expression in prefix form, items separated by blanks:
-    `B <op> <hexlit>` left right | `N <hexlit>` operand | `A <kind> <hexlit>`;
+    `B <op> <hexlit>` left right | `N <hexlit>` operand | `A <kind> <hexlit>` | `C <hexname> <n>` arg×n |
+    `I <neg>` operand | `W <neg>` e lo hi | `L <neg> <hexop>` e pattern | `S <neg> <n>` e item×n  (neg = 0/1, n ≥ 1 for S);
     answer = the literals of `printG`, hex-encoded, separated by blanks. -/
 namespace GoSQLXModel.Driver
 open GoSQLXModel.ExprParse
@@ -18,6 +19,13 @@ def hexLit (h : String) : String :=
 
 instance : Inhabited G := ⟨.atom (.null "")⟩
 
+def negOf (s : String) : Option String := if s == "1" then some "NOT" else none
+
+def glOfList : List G → GL
+  | [] => .nil
+  | g :: gs => .cons g (glOfList gs)
+
+mutual
 partial def readG (ts : List String) : G × List String :=
   match ts with
   | "B" :: op :: h :: rest =>
@@ -32,7 +40,36 @@ partial def readG (ts : List String) : G × List String :=
     let a : Atom := if k == "ident" then .ident v else if k == "num" then .num v else if k == "str" then .str v
       else if k == "bool" then .bool v else .null v
     (.atom a, rest)
+  | "C" :: h :: n :: rest =>
+    let (args, r1) := readN (n.toNat?.getD 0) rest
+    (.call (hexLit h) (glOfList args), r1)
+  | "I" :: neg :: rest =>
+    let (e, r1) := readG rest
+    (.isnull "IS" (negOf neg) "NULL" e, r1)
+  | "W" :: neg :: rest =>
+    let (e, r1) := readG rest
+    let (lo, r2) := readG r1
+    let (hi, r3) := readG r2
+    (.between (negOf neg) "BETWEEN" "AND" e lo hi, r3)
+  | "L" :: neg :: h :: rest =>
+    let (e, r1) := readG rest
+    let (p, r2) := readG r1
+    (.like (negOf neg) ⟨.like, hexLit h⟩ e p, r2)
+  | "S" :: neg :: n :: rest =>
+    let (e, r1) := readG rest
+    let (items, r2) := readN (n.toNat?.getD 1) r1
+    match items with
+    | first :: more => (.inlist (negOf neg) "IN" e first (glOfList more), r2)
+    | [] => (e, r2)
   | _ => (.atom (.null ""), [])
+partial def readN (n : Nat) (ts : List String) : List G × List String :=
+  match n with
+  | 0 => ([], ts)
+  | k+1 =>
+    let (g, r1) := readG ts
+    let (gs, r2) := readN k r1
+    (g :: gs, r2)
+end
 
 def printOp (payload : String) : String :=
   let (g, _) := readG ((payload.splitOn " ").filter (· != ""))
